@@ -14,14 +14,16 @@ def held (s : L) : List Nat :=
 /-- `Layer` only queues while it is paused -/
 def WF (s : L) : Prop := s.paused = none → s.queue = []
 
-private theorem afterHook_cases (k : Kind) (m : Msg) (v : Verdict) (o : Out) (ho : o ∈ afterHook k m v) :
+private theorem afterHook_cases (k : Kind) (s : L) (m : Msg) (v : Verdict) (o : Out) (ho : o ∈ afterHook k s m v) :
     o = .error m.id ∨ o = .send m.id v.content := by
   unfold afterHook at ho
   split at ho
   · simp at ho; exact Or.inl ho
   · split at ho
     · simp at ho
-    · simp at ho; exact Or.inr ho
+    · split at ho
+      · simp at ho
+      · simp at ho; exact Or.inr ho
 
 private theorem wf_step (k : Kind) (s : L) (i : In) (h : WF s) : WF (step k s i).1 := by
   cases i with
@@ -38,6 +40,7 @@ private theorem wf_step (k : Kind) (s : L) (i : In) (h : WF s) : WF (step k s i)
       cases hq : s.queue with
       | nil => intro _; rfl
       | cons n q => intro h'; simp at h'
+  | close kl gn => simpa [step, WF] using h
 
 /-- **held while intercepted** (step form): whatever the state and the input, a `send` is only ever emitted for the
     message whose hook was pending, in the very step that completes that hook, and with the content the verdict
@@ -54,9 +57,9 @@ theorem held_while_intercepted (k : Kind) (s : L) (i : In) (id c : Nat) (h : Out
     split at h
     · simp at h
     · rename_i m hm
-      have key : ∀ o, o ∈ afterHook k m v → o = Out.send id c → m.id = id ∧ c = v.content := by
+      have key : ∀ o, o ∈ afterHook k s m v → o = Out.send id c → m.id = id ∧ c = v.content := by
         intro o ho hoe
-        rcases afterHook_cases k m v o ho with h' | h'
+        rcases afterHook_cases k s m v o ho with h' | h'
         · rw [h'] at hoe; cases hoe
         · rw [h'] at hoe; injection hoe with h1 h2; exact ⟨h1, h2.symm⟩
       split at h
@@ -67,6 +70,7 @@ theorem held_while_intercepted (k : Kind) (s : L) (i : In) (id c : Nat) (h : Out
         · obtain ⟨h1, h2⟩ := key _ h rfl
           exact ⟨m, v, hm, h1, rfl, h2⟩
         · cases h
+  | close kl gn => simp [step] at h
 
 /-- an arrival never changes which message is pending: the intercepted message stays held until its completion -/
 theorem arrival_keeps_pending (k : Kind) (s : L) (m n : Msg) (h : s.paused = some m) :
@@ -76,7 +80,8 @@ theorem arrival_keeps_pending (k : Kind) (s : L) (m n : Msg) (h : s.paused = som
 private theorem held_step (k : Kind) (s : L) (i : In) (hw : WF s) :
     held (step k s i).1 = match i with
       | .arrive m => held s ++ [m.id]
-      | .complete _ => (held s).tail := by
+      | .complete _ => (held s).tail
+      | .close _ _ => held s := by
   cases i with
   | arrive m =>
     simp only [step]
@@ -88,6 +93,7 @@ private theorem held_step (k : Kind) (s : L) (i : In) (hw : WF s) :
     cases hp : s.paused with
     | none => simp [held, hp, hw hp]
     | some m => cases hq : s.queue <;> simp [held, hp, hq]
+  | close kl gn => simp [step, held]
 
 private theorem held_head (s : L) (m : Msg) (h : s.paused = some m) : ∃ t, held s = m.id :: t := by
   simp [held, h]
@@ -116,6 +122,7 @@ private theorem run_sends (k : Kind) : ∀ (ins : List In) (s : L), WF s → (he
         rcases hx with hx | hx
         · exact Or.inl (List.mem_of_mem_tail hx)
         · exact Or.inr hx
+      | close kl gn => simpa only [hh, arrivals] using hx
     have hn1 : (held (step k s i).1 ++ arrivals is).Nodup := by
       cases i with
       | arrive m =>
@@ -130,6 +137,7 @@ private theorem run_sends (k : Kind) : ∀ (ins : List In) (s : L), WF s → (he
           simp only [List.tail_cons]
           simp only [List.cons_append, List.nodup_cons] at hn
           exact hn.2
+      | close kl gn => simpa only [hh, arrivals] using hn
     obtain ⟨ih1, ih2⟩ := run_sends k is (step k s i).1 hw1 hn1
     simp only [run]
     constructor
@@ -170,10 +178,11 @@ theorem held_never_sent (k : Kind) (ins : List In) (hn : (arrivals ins).Nodup) (
 /-- **resume forwards once** (step form): completing the hook of a message that was not killed (or whose layer does
     not consult the kill) and not dropped forwards exactly that message, once, with the content it has at
     completion time (i.e. including the user's edits). -/
-theorem resume_forwards_edited (k : Kind) (m : Msg) (v : Verdict)
-    (hk : (k.honoursKill && v.killed) = false) (hd : (k == .ws && v.dropped) = false) :
-    afterHook k m v = [.send m.id v.content] := by
-  simp [afterHook, hk, hd]
+theorem resume_forwards_edited (k : Kind) (s : L) (m : Msg) (v : Verdict)
+    (hk : (k.honoursKill && (v.killed || (k == .http && s.remoteKill))) = false) (hg : s.gone = false)
+    (hd : (k == .ws && v.dropped) = false) :
+    afterHook k s m v = [.send m.id v.content] := by
+  simp only [afterHook, hk, hg, hd]; rfl
 
 private theorem step_count (k : Kind) (s : L) (i : In) (id : Nat) :
     ((step k s i).2.filter (Out.isSendOf id)).length ≤ 1 := by
@@ -183,7 +192,8 @@ private theorem step_count (k : Kind) (s : L) (i : In) (id : Nat) :
     simp only [step]
     split
     · simp
-    · split <;> (simp only [afterHook]; split <;> (try split) <;> simp [Out.isSendOf, List.filter_cons] <;> (try split) <;> simp)
+    · split <;> (simp only [afterHook]; split <;> (try split) <;> (try split) <;> simp [Out.isSendOf, List.filter_cons] <;> (try split) <;> simp)
+  | close kl gn => simp [step]
 
 private theorem filter_eq_nil_of_not_mem (l : List Out) (id : Nat) (h : ∀ c, Out.send id c ∉ l) :
     l.filter (Out.isSendOf id) = [] := by
@@ -216,6 +226,7 @@ private theorem run_count (k : Kind) : ∀ (ins : List In) (s : L), WF s → (he
           simp only [List.tail_cons]
           simp only [List.cons_append, List.nodup_cons] at hn
           exact hn.2
+      | close kl gn => simpa only [hh, arrivals] using hn
     simp only [run, List.filter_append, List.length_append]
     by_cases hs : ∃ c, Out.send id c ∈ (step k s i).2
     · -- sent in this step: it was pending, it is gone afterwards, so it is never sent again
@@ -293,6 +304,53 @@ theorem kill_forwards_nothing_and_errors_partial (k : Kind) (hk : k.honoursKill 
     · exact hnot ((run_sends k ins _ hw1 hn1).1 _ c hc)
   · exact List.mem_append_left _ herr
 
+/-- a close of the source that the layer treats as a kill (HTTP requests: `check_killed` finds the
+    RequestProtocolError in the paused-event queue) marks the held message, and changes nothing else -/
+theorem remote_close_marks_held (s : L) (hw : WF s) (m : Msg) (hp : s.paused = some m) (gone : Bool) :
+    (step .http s (.close true gone)).1.paused = some m ∧ (step .http s (.close true gone)).1.remoteKill = true ∧
+    WF (step .http s (.close true gone)).1 ∧ held (step .http s (.close true gone)).1 = held s ∧
+    (step .http s (.close true gone)).2 = [] :=
+  ⟨by simp [step, hp], by simp [step, hp], wf_step _ _ _ hw, held_step _ _ _ hw, by simp [step]⟩
+
+/-- …and a message so marked is never forwarded: its flow ends with an error when the hook completes, whatever the
+    user's verdict (resume, edit) was. -/
+theorem remote_close_kills_held (s : L) (hw : WF s) (m : Msg) (hp : s.paused = some m) (hr : s.remoteKill = true)
+    (v : Verdict) (ins : List In) (hn : (held s ++ arrivals ins).Nodup) :
+    (∀ c, Out.send m.id c ∉ (run .http s (.complete v :: ins)).2) ∧ Out.error m.id ∈ (run .http s (.complete v :: ins)).2 := by
+  have hstep : ∀ o, o ∈ (step .http s (.complete v)).2 → o = Out.error m.id ∨ ∃ n, o = Out.hook n := by
+    intro o ho
+    simp only [step, hp] at ho
+    split at ho
+    · simp [afterHook, Kind.honoursKill, hr] at ho; exact Or.inl ho
+    · simp [afterHook, Kind.honoursKill, hr] at ho
+      rcases ho with ho | ho
+      · exact Or.inl ho
+      · exact Or.inr ⟨_, ho⟩
+  have herr : Out.error m.id ∈ (step .http s (.complete v)).2 := by
+    simp only [step, hp]
+    split <;> simp [afterHook, Kind.honoursKill, hr]
+  obtain ⟨t, ht⟩ := held_head s m hp
+  have hw1 := wf_step .http s (.complete v) hw
+  have hh := held_step .http s (.complete v) hw
+  have hn1 : (held (step .http s (.complete v)).1 ++ arrivals ins).Nodup := by
+    simp only [hh, ht, List.tail_cons]
+    rw [ht] at hn
+    simp only [List.cons_append, List.nodup_cons] at hn
+    exact hn.2
+  have hnot : m.id ∉ held (step .http s (.complete v)).1 ++ arrivals ins := by
+    simp only [hh, ht, List.tail_cons]
+    rw [ht] at hn
+    simp only [List.cons_append, List.nodup_cons] at hn
+    exact hn.1
+  simp only [run]
+  constructor
+  · intro c hc
+    simp only [List.mem_append] at hc
+    rcases hc with hc | hc
+    · rcases hstep _ hc with h | ⟨n, h⟩ <;> cases h
+    · exact hnot ((run_sends .http ins _ hw1 hn1).1 _ c hc)
+  · exact List.mem_append_left _ herr
+
 /-- TCP, UDP, WebSocket messages and DNS answers are forwarded although the flow was killed while intercepted -/
 theorem kill_forwards_nothing_and_errors_counterexample :
     ∀ k ∈ [Kind.tcp, Kind.udp, Kind.ws, Kind.dnsResp],
@@ -339,7 +397,7 @@ theorem siblings_progress (k : Kind) (p : P) (j : Nat) (i : In) :
     fires at once, its message is forwarded when its own hook completes, and `i` is still holding its message. -/
 theorem sibling_exchange_while_held (k : Kind) (p : P) (i j : Nat) (hij : i ≠ j) (m n : Msg) (v : Verdict)
     (hi : (p.get i).paused = some m) (hj : p.get j = {}) :
-    (runP k p [(j, .arrive n), (j, .complete v)]).2 = [.hook n.id] ++ afterHook k n v ∧
+    (runP k p [(j, .arrive n), (j, .complete v)]).2 = [.hook n.id] ++ afterHook k {} n v ∧
     ((runP k p [(j, .arrive n), (j, .complete v)]).1.get i).paused = some m := by
   have s1 := siblings_progress k p j (.arrive n)
   have s2 := siblings_progress k (stepP k p j (.arrive n)).1 j (.complete v)
